@@ -110,7 +110,7 @@ void w_call(void)
     __CPROVER_assert(vp_ok_n == 0, "[C16] POST call.rejected.no_ok_report");
     if (!tracing) __CPROVER_assert(vp_tr_n == 0, "[C17] POST call.rejected.nothing_traced_without_tracer");
     for (int i = 0; i < N; i++) {
-      __CPROVER_assert(hb[i]->call_count == in_cnt[i], "[C01,C05,C07] FRAME call.rejected.no_call_count_changes");
+      __CPROVER_assert(hb[i]->call_count == in_cnt[i], "[C01,C03,C05,C07] FRAME call.rejected.no_call_count_changes");
       __CPROVER_assert(in_ring_cm(SENT_ACTIVE, i) == (in_where[i] == 0) && in_ring_cm(SENT_SAT, i) == (in_where[i] == 1), "[C01,C05] FRAME call.rejected.lists_unchanged");
       for (int k = 0; k < 2; k++) if (k < in_K[i])
         __CPROVER_assert(handle_linked(i, k) == in_linked[i][k], "[C05] FRAME call.rejected.sequences_unchanged");
